@@ -58,7 +58,11 @@ func genHostile(t *rapid.T) hostileCase {
 	if rapid.IntRange(0, 9).Draw(t, "validbias") < 7 {
 		// constructed to satisfy the documented preconditions, boundary values included
 		var m int
-		switch rapid.IntRange(0, 99).Draw(t, "mk") {
+		mk := rapid.IntRange(1, 99).Draw(t, "mk")
+		if gen.Rare(t, "hugeM", 6) {
+			mk = 0
+		}
+		switch mk {
 		case 0:
 			m = rapid.SampledFrom([]int{1 << 20, 1<<20 - 1, 1 << 16, 8000, 8192, 55440}).Draw(t, "M")
 		case 1, 2, 3, 4, 5, 6, 7, 8:
@@ -68,11 +72,11 @@ func genHostile(t *rapid.T) hostileCase {
 		}
 		c.Cfg.CoreSize = m
 		c.Cfg.Processes = rapid.SampledFrom([]int{1, 1, 2, 3, 4, 8, 64, 8000}).Draw(t, "P")
-		if rapid.IntRange(0, 39).Draw(t, "hugeP") == 0 {
+		if gen.Rare(t, "hugeP", 5) {
 			c.Cfg.Processes = 1 << 20
 		}
 		c.Cfg.Cycles = rapid.SampledFrom([]int{1, 2, 3, 10, 50, 200, 399, 400, 401, 1000}).Draw(t, "C")
-		if rapid.IntRange(0, 39).Draw(t, "hugeC") == 0 {
+		if gen.Rare(t, "hugeC", 5) {
 			c.Cfg.Cycles = rapid.SampledFrom([]int{80000, 1 << 20}).Draw(t, "C2")
 		}
 		c.Cfg.ReadLimit = gen.Limit(m).Draw(t, "R")
